@@ -53,6 +53,7 @@ fn serve() {
         let mut resp = match op {
             "ping" => json!({"pong": true}),
             "exec" => exec::exec(&exec::ExecRequest::from_json(&req)),
+            "exec_trace" => exec::exec_trace(&exec::ExecRequest::from_json(&req)),
             "tokens" => ops::tokens(req["src"].as_str().unwrap_or("")),
             "format" => ops::format(req["src"].as_str().unwrap_or(""), &req["options"]),
             "parse" => ops::parse(req["src"].as_str().unwrap_or(""), &req["options"]),
